@@ -63,8 +63,7 @@ func (r *probeRec) events() []map[string]any {
 	return out
 }
 
-// probeOne calls method m once, from this goroutine, on a fresh object in the given class.
-// Methods that may block get a cancelled context (the single driver must not park).
+// probeOne calls method m once on a fresh object in the given class; nothing else uses the object.
 func probeOne(j job) map[string]any {
 	f := lookup(j.Comp, j.M)
 	base := runtime.NumGoroutine()
@@ -72,10 +71,35 @@ func probeOne(j job) map[string]any {
 	rec := &probeRec{seen: map[string]*[3]int{}}
 	curProbe.Store(rec)
 	c := &call{ctx: w.ctx, tid: 0, i: 1}
-	if j.Block {
-		c.ctx = w.dead
+	if !j.Block {
+		safe(func() { f(w, c) })
+	} else {
+		// a method that may block runs on a goroutine of its own with a live context (a cancelled one
+		// would make e.g. Iterator.ReadOne return before it reaches the object); if it has not returned
+		// after a bounded number of yields the context is cancelled, which must release it.
+		done := make(chan struct{})
+		go func() { defer close(done); safe(func() { f(w, c) }) }()
+		returned := false
+		for k := 0; k < 400 && !returned; k++ {
+			select {
+			case <-done:
+				returned = true
+			default:
+				runtime.Gosched()
+				if k%20 == 19 {
+					time.Sleep(50 * time.Microsecond)
+				}
+			}
+		}
+		if !returned {
+			w.cancel()
+			select {
+			case <-done:
+			case <-time.After(20 * time.Second):
+				fail("probe: " + j.M + " did not return after its context was cancelled")
+			}
+		}
 	}
-	safe(func() { f(w, c) })
 	// effects that the method only triggers (the Broker's goroutines): give them a bounded
 	// number of yields; this affects coverage only, never a verdict.
 	for k := 0; k < 200; k++ {
